@@ -251,7 +251,21 @@ def fit_cases(ctx, rs, nfits):
                       gemini=str(rs.choice(["kl_ova", "mmd_ova", "chi2_ova"])), batch_size=[None, 4][rs.randint(2)], n_hidden_dim=2,
                       alpha=float(rs.choice([10.0, 30.0])), M=float(rs.choice([1.0, 0.5])))
         ded0 = nfits - 12 - max(8, nfits // 5)
-        if ded0 - max(6, nfits // 10) <= it < ded0:
+        dk0 = ded0 - max(6, nfits // 10)
+        force_decorated = False
+        if dk0 - max(4, nfits // 12) <= it < dk0:
+            # dedicated: decorated MINI-BATCH fits with a short last batch and pairs that are split between the batches of a pass (what the
+            # decoration knows about one batch must not leak into the next); every early step is judged
+            fam = ["LinearModel", "MLPModel"][it % 2]
+            cls = E[fam]
+            n, d, K = 8, 2, int(rs.randint(2, 4))
+            X = fl.small_data(rs, n, d)
+            kw = dict(n_clusters=K, max_iter=3, solver=str(rs.choice(["adam", "sgd"])), random_state=int(rs.randint(100)), learning_rate=0.05,
+                      gemini=str(rs.choice(["kl_ova", "mmd_ova", "hellinger_ovo", "chi2_ova"])), batch_size=int(rs.choice([3, 5])))
+            if fam == "MLPModel":
+                kw["n_hidden_dim"] = 3
+            force_decorated = True
+        if dk0 <= it < ded0:
             # dedicated: Douglas with several cut points per feature (their order changes under the updates, so the gradient has to be
             # scattered back through the sort), and KernelRIM with a kernel-weighted penalty on several batches per pass (the penalty
             # gradient follows W_ from one batch to the next)
@@ -284,7 +298,7 @@ def fit_cases(ctx, rs, nfits):
         if fam == "Douglas" and "feature_mask" not in kw:
             if d > 2:
                 X = X[:, :2]; d = 2
-        decorated = fam in ("LinearModel", "MLPModel", "CategoricalModel") and rs.rand() < 0.7
+        decorated = fam in ("LinearModel", "MLPModel", "CategoricalModel") and (rs.rand() < 0.7 or force_decorated)
         if it >= nfits - 12:
             # dedicated block: each decorable family with each multi-pair shape, all samples in one batch
             fam = ["LinearModel", "MLPModel", "CategoricalModel"][(it - (nfits - 12)) % 3]
@@ -302,7 +316,7 @@ def fit_cases(ctx, rs, nfits):
         if decorated:
             perm = rs.permutation(n)
             factor = float(rs.choice([0.5, 2.0]))
-            shape = ((it - (nfits - 12)) // 3) if it >= nfits - 12 else int(rs.randint(4))
+            shape = ((it - (nfits - 12)) // 3) if it >= nfits - 12 else (1 + it % 3 if force_decorated else int(rs.randint(4)))
             refused_block = it >= nfits - 12 and shape == 0
             if shape == 0:      # disjoint pairs
                 ml, cl = [(int(perm[0]), int(perm[1]))], [(int(perm[2]), int(perm[3]))]
@@ -440,5 +454,5 @@ def run(ctx):
         ctx.case((unit, np.asarray(vals).tobytes()), True, None)
         if not core.close_vec(list(map(float, vals)), m, rtol=1e-9):
             ctx.corr_break("model:" + unit, inp, {"impl": list(map(float, vals)), "model": m})
-    fit_cases(ctx, rs, 50 if ctx.tier == "quick" else 400)
+    fit_cases(ctx, rs, 54 if ctx.tier == "quick" else 400)
     return ctx.finish()
